@@ -542,8 +542,7 @@ def fact_holds(f, n):
 
 def classify(fn, probe_var, fact, observed):
     """F02b class.  Root: the probed container is a std::set / std::map built from an initialiser list with >= 2 items and the fact claims
-    more elements than the execution has.  Consequence: the probed container is another one, but the function branches on the size of
-    such a set / map (`v.size()` / `v.empty()` in a condition), so the wrong size fact decides which statements cppcheck thinks are
+    more elements than the execution has.  Consequence: the function branches on the size of such a set / map (the probed container itself or another one) (`v.size()` / `v.empty()` in a condition), so the wrong size fact decides which statements cppcheck thinks are
     executed.  (Unique-key *insertion* — F6 — is repaired in cfg/std.cfg by 8c7e264 and is not excused any more.)"""
     kind, bound, v, _ = fact
     text = fn["text"]
@@ -555,7 +554,7 @@ def classify(fn, probe_var, fact, observed):
     if pattern(probe_var) and claims_more:
         return pattern(probe_var)
     for var in sorted(set(re.findall(r"std::(?:set|map)<[^>]*>\s+(\w+)", text))):
-        if var != probe_var and pattern(var) and re.search(r"(if|while|for) \([^\n]*\b%s\.(size|empty)\(\)" % var, text):
+        if pattern(var) and re.search(r"(if|while|for) \([^\n]*\b%s\.(size|empty)\(\)" % var, text):
             return pattern(var)
     return None
 
